@@ -90,6 +90,9 @@ class Case:
             l.append("validator " + self.validator)
         if self.printer:
             l.append("printer 1")
+        for k in ("highlight", "signals", "paste", "helper_panic_at"):
+            if k in self.meta:
+                l.append("%s %s" % (k, self.meta[k]))
         for ks, cmd in self.binds:
             l.append("bind %s %s" % (ks, cmd))
         return "\n".join(l) + "\n"
@@ -175,11 +178,12 @@ def strip_w(reads):
 
 
 def _pty_job(job):
-    exe, spec, ch, cols = job
+    exe, spec, ch, cols = job[:4]
+    events = job[4] if len(job) > 4 else None
     last = None
     for attempt in range(2):
         try:
-            r = ptydrive.run_case(exe, spec, ch, cols=cols)
+            r = ptydrive.run_case(exe, spec, ch, cols=cols, events=events)
             r.pop("termios_probe", None)
             return r
         except OSError as e:      # infrastructure (fork / pty exhaustion): retry once
@@ -194,7 +198,7 @@ def run_tty_cases(res, exe, driver, cases, tmp, tag, compare_output=True, rng=No
         ch = c.chunks if c.chunks is not None else chunks_of(c.keys, rng, typeahead)
         prepared.append((c, ch))
 
-    jobs = [(exe, c.spec(), ch, c.cols) for c, ch in prepared]
+    jobs = [(exe, c.spec(), ch, c.cols, c.meta.get("events")) for c, ch in prepared]
     # processes, not threads: the driver polls /proc and must not share a GIL
     import multiprocessing
     ctx = multiprocessing.get_context("fork")
@@ -210,7 +214,7 @@ def run_tty_cases(res, exe, driver, cases, tmp, tag, compare_output=True, rng=No
         impl = canon_impl(raw)
         model = canon_model(m) if m is not None else None
         # the hang-up that ends a script is not part of the comparison: drop the reads it ends
-        if model is not None:
+        if model is not None and not c.meta.get("events"):
             # what is written around a hang-up is lost with the terminal: compare those reads without output
             nw = lambda rs: [r.split(" W=")[0] if r.startswith("O=hangup") else r for r in rs]
             a = nw(impl) if compare_output else strip_w(impl)
@@ -343,10 +347,43 @@ def gen_vi(rng, n, history=False):
 HIST_POOL = ["one", "two words", "é日", "a b,c", "multi\nline\nentry", "x", "two words", "  lead"]
 
 
+def gen_vi_ops(rng):
+    """vi operators with a count before the operator AND before the motion, on a line with enough words"""
+    ks = ["Esc", rng.choice(["0", "0", "$", "3", "w"])]
+    if ks[-1] == "3":
+        ks.append("w")
+    for _ in range(rng.randint(1, 5)):
+        c1 = [rng.choice("234")] if rng.random() < 0.6 else []
+        c2 = [rng.choice("234")] if rng.random() < 0.6 else []
+        op = rng.choice(["d", "d", "c", "y", "<", ">"])
+        mot = rng.choice(["w", "w", "e", "b", "l", "h", "W", "E", "B", " ", "j", "k", op])
+        ks += c1 + [op] + c2
+        if rng.random() < 0.15:
+            ks += [rng.choice(["f", "t", "F", "T"]), rng.choice(["a", " ", "e"])]
+        else:
+            ks.append(mot)
+        if op == "c":
+            ks += [rng.choice(["X", "é"]), "Esc"]
+        r = rng.random()
+        if r < 0.3:
+            ks.append(rng.choice(["p", "P", "u", "."]))
+        elif r < 0.5:
+            ks += [rng.choice(["0", "$", "w", "b"])]
+    ks.append("Enter")
+    return ks
+
+
 def c01_cases(tier, seed):
     rng = random.Random(seed * 211 + 17)
     n = 6000 if tier == "thorough" else 320
     cases = []
+    words = ["a", "bb", "c,d", "e", "ff", "é日", "g.h", "i", "x_y", "zz"]
+    for _ in range(n // 8):
+        t = " ".join(rng.choice(words) for _ in range(rng.randint(6, 12)))
+        if rng.random() < 0.3:
+            t = t.replace(" ", "\n", 2)
+        k = rng.randint(0, len(t))
+        cases.append(Case(gen_vi_ops(rng), mode="vi", initial=(t[:k], t[k:]), timeout=0, prompt="> ", meta={}))
     for _ in range(n):
         mode = rng.choice(["emacs", "emacs", "vi"])
         hist = [rng.choice(HIST_POOL) for _ in range(rng.choice([0, 0, 1, 2, 3]))]
@@ -539,12 +576,31 @@ def c07_cases(tier, seed):
     return cases
 
 
+def gen_vi_replace(rng):
+    """vi overwrite sessions (R) over characters of different UTF-8 lengths, with cursor moves inside the
+    session, then undo"""
+    ks = ["Esc", "0"] + ["l"] * rng.randint(0, 3)
+    for _ in range(rng.randint(1, 3)):
+        ks.append("R")
+        for _ in range(rng.randint(1, 6)):
+            r = rng.random()
+            ks.append(rng.choice(["e", "X", "é", "日", "a"]) if r < 0.7 else rng.choice(["Right", "Left", "Right"]))
+        ks.append("Esc")
+        ks += rng.choice([["u"], ["u", "u"], [], ["u", "l"], ["2", "u"]])
+    ks += rng.choice([[], ["u"], ["u", "u", "u"]])
+    ks.append("Enter")
+    return ks
+
+
 def c05_cases(tier, seed):
     """undo-biased scripts: C-_ / C-x C-u / vi u at every kind of position, with counts; searches and
     completions started and aborted or accepted in between"""
     rng = random.Random(seed * 701 + 13)
     n = 4000 if tier == "thorough" else 260
     cases = []
+    for _ in range(n // 8):
+        t = "".join(rng.choice(["a", "b", "é", "日", "c", " ", "ü"]) for _ in range(rng.randint(3, 9)))
+        cases.append(Case(gen_vi_replace(rng), mode="vi", initial=(t, ""), timeout=0, prompt="> "))
     for _ in range(n):
         mode = rng.choice(["emacs", "emacs", "vi"])
         hist = [rng.choice(HIST_POOL) for _ in range(rng.choice([0, 1, 2, 3]))]
@@ -603,8 +659,10 @@ def c06_cases(tier, seed):
                 else:
                     if r < 0.4:
                         op = rng.choice(["d", "d", "c", "y"])
-                        keys += ([rng.choice("23")] if rng.random() < 0.2 else []) + [op, rng.choice(["w", "b", "e", "$", "0", "h", "l", op, "W", "B", "^"])]
+                        keys += ([rng.choice("23")] if rng.random() < 0.2 else []) + [op, rng.choice(["w", "b", "e", "$", "0", "h", "l", op, "W", "B", "^", "j", "k", "+", "-"])]
                         insert = op == "c"
+                        if op != "c" and rng.random() < 0.3:
+                            keys += [rng.choice(["x", "X", "x"]), rng.choice(["p", "P"])]
                     elif r < 0.6:
                         keys.append(rng.choice(["p", "P", "p", "P", "x", "X", "D"]))
                     elif r < 0.8:
@@ -624,3 +682,99 @@ def c06_cases(tier, seed):
 
 STREAMS = {"keys": c01_cases, "validate": c13_cases, "complete": c14_cases, "isearch": c08_cases,
            "recall": c07_cases, "undo": c05_cases, "kill": c06_cases}
+
+
+# ---------------------------------------------------------------- C17: junk
+
+JUNK_BYTES = ([0x1b] * 6 + [0x5b] * 5 + [0x4f] * 2 + list(b"0123456789") + [0x3b] * 3 + [0x7e] * 3 + list(b"ABCDHFZRabcd~")
+              + list(range(0, 32)) + [0x7f] + list(b"abc xyz(){}[]\"'\\,.") + [0x80, 0xbf, 0xc0, 0xc3, 0xa9, 0xe6, 0x97, 0xa5, 0xf0, 0x9f, 0x98, 0x80, 0xff, 0xfe, 0xed, 0xa0])
+
+
+def junk_chunk(rng):
+    r = rng.random()
+    if r < 0.35:
+        return bytes(rng.choice(JUNK_BYTES) for _ in range(rng.randint(1, 8)))
+    if r < 0.5:       # truncated / over-long CSI and SS3 sequences
+        body = bytes(rng.choice(b"0123456789;") for _ in range(rng.randint(0, 6)))
+        return ESC + rng.choice([b"[", b"O", b"[["]) + body + rng.choice([b"", b"~", b"A", b"R", b"u", b"\x1b"])
+    if r < 0.58:      # paste start, text, maybe no terminator
+        return ESC + b"[200~" + bytes(rng.choice(b"ab\r\n\x1b[ ") for _ in range(rng.randint(0, 8))) + rng.choice([b"", ESC + b"[201~", ESC + b"[201"])
+    if r < 0.66:      # huge numeric arguments
+        return b"".join(ESC + bytes([rng.choice(b"0123456789-")]) for _ in range(rng.randint(2, 8))) + rng.choice([b"a", b"\x06", b"\x0b", b"x"])
+    if r < 0.72:
+        return bytes([rng.choice([0x00, 0x1c, 0x1d, 0x1e, 0x1f, 0x1a])])
+    if r < 0.78:
+        return rng.choice(["é", "日", "😀", "́", "\u009b", "‍"]).encode("utf-8")
+    if r < 0.82:
+        return ESC * rng.randint(2, 5) + rng.choice([b"", b"a", b"[A"])
+    return rng.choice([b"\r", b"\t", b"\x12ab", b"\x07", b"abc", b"(", b")", b"\x7f", b"\x17", b"\x19", b"\x1b."])
+
+
+def fix_tail(chunk):
+    """a chunk must not end inside a UTF-8 sequence: the implementation would wait for the next chunk to
+    finish the character, the model decodes chunk by chunk (cut the dangling lead/continuation bytes)"""
+    b = bytearray(chunk)
+    again = True
+    while again and b:
+        again = False
+        for back in range(1, 4):
+            if len(b) < back:
+                break
+            c = b[-back]
+            if c >= 0xc0:
+                need = 2 if c < 0xe0 else 3 if c < 0xf0 else 4
+                if back < need:
+                    del b[-back:]
+                    again = True
+                break
+            if c < 0x80:
+                break
+    return bytes(b) if b else b"a"
+
+
+def c17_cases(tier, seed):
+    rng = random.Random(seed * 1601 + 23)
+    n = 6000 if tier == "thorough" else 400
+    cases = []
+    for k in range(n):
+        mode = rng.choice(["emacs", "emacs", "vi"])
+        r = rng.random()
+        if r < 0.6:
+            chunks = [junk_chunk(rng) for _ in range(rng.randint(2, 14))]
+            keys = ["<%s>" % c.hex() for c in chunks]
+        else:
+            base = gen_emacs(rng, rng.randint(4, 20), True, extra=("Tab", "C-r", "C-g", "Esc", "C-z", "C-l")) if mode == "emacs" \
+                else gen_vi(rng, rng.randint(4, 20), True)
+            chunks, keys = [], []
+            for kk in base:
+                chunks.append(key_bytes(kk))
+                keys.append(kk)
+                if rng.random() < 0.15:
+                    j = junk_chunk(rng)
+                    chunks.append(j)
+                    keys.append("<%s>" % j.hex())
+            chunks.append(b"\r")
+            keys.append("Enter")
+        chunks = [fix_tail(c) for c in chunks]
+        hist = [rng.choice(HIST_POOL) for _ in range(rng.choice([0, 1, 3]))]
+        helper = rng.random() < 0.5
+        meta = {}
+        if helper and rng.random() < 0.5:
+            meta["highlight"] = 1
+        events = {}
+        if rng.random() < 0.25:
+            for _ in range(rng.randint(1, 3)):
+                events.setdefault(rng.randrange(len(chunks)), []).append(
+                    ("winch", rng.choice([20, 40, 80, 10])) if rng.random() < 0.7 else ("tstp",))
+            meta["events"] = events
+        c = Case(keys, mode=mode, history=hist, timeout=0 if mode == "vi" else rng.choice(["none", 0]),
+                 prompt=rng.choice(["> ", ""]), reads=rng.choice([3, 6]), chunks=chunks, printer=rng.random() < 0.3,
+                 helper=helper, cands=(rng.sample(CAND_POOL, 3) if helper and rng.random() < 0.5 else None),
+                 hints=(["abc def", "x"] if helper and rng.random() < 0.3 else None),
+                 validator=("brackets" if helper and rng.random() < 0.3 else "none"),
+                 completion=rng.choice(["circular", "list"]), cols=rng.choice([80, 80, 20]), meta=meta)
+        cases.append(c)
+    return cases
+
+
+STREAMS["junk"] = c17_cases
